@@ -31,8 +31,8 @@ import (
 
 	"github.com/ethereum/go-ethereum/common"
 	"github.com/ethereum/go-ethereum/trie"
-	tk "verif/harness/triekit"
 	tl "verif/harness/tracelib"
+	tk "verif/harness/triekit"
 )
 
 type action struct {
